@@ -127,6 +127,8 @@ Section Havoc.
                           end; h_bad := false |}
     | SConv x _ _ =>
         Some {| h_norm := fold_right (st_add vars) [] (flat_map (fun s => assign_all vars s x [VPtr None]) S); h_bad := false |}
+    | SConvI x y _ _ =>
+        Some {| h_norm := fold_right (st_add vars) [] (flat_map (fun s => assign_all vars s x (hvals s (AVar y))) S); h_bad := false |}
     | SCallI _ _ x xi _ _ _ =>
         let S' := match xi with
                   | VL _ => filter (fun s => negb (anil (sget s xi))) S
@@ -160,6 +162,7 @@ Fixpoint lstmt (st : stmt) : list nat :=
   | SWhile c b => lcond c ++ lstmt b
   | SReturn a => latom a
   | SConv x _ _ => lvar x
+  | SConvI x y _ _ => lvar x ++ lvar y
   | SReturn2 a e => latom a ++ latom e
   | SRetCall _ _ args => flat_map latom args
   | SCall2 _ x xe _ args => match x with Some y => lvar y | None => [] end ++ match xe with Some y => lvar y | None => [] end ++ flat_map latom args
